@@ -13,7 +13,16 @@ use crate::world::{Opts, Outcome, Scenario};
 use std::collections::BTreeSet;
 
 pub fn scenario(name: &str, strings: &[String]) -> Scenario {
-    let pool = PoolCfg::sharded("db", "transaction", 1, 3, 1, 1);
+    scenario_role(name, strings, None)
+}
+
+/// `default_role`: the pool's configured default role; a fresh session starts from it, and
+/// `SET SERVER ROLE TO 'default'` returns to it.
+pub fn scenario_role(name: &str, strings: &[String], default_role: Option<&str>) -> Scenario {
+    let mut pool = PoolCfg::sharded("db", "transaction", 1, 3, 1, 1);
+    if let Some(r) = default_role {
+        pool.extra = format!("{}default_role = \"{}\"\n", pool.extra, r);
+    }
     let cfg = Cfg::one(pool);
     let servers = cfg.servers();
     let mut s = Script::new("c0").connect("alice", "db", Some("alicepw"));
@@ -28,7 +37,7 @@ pub fn scenario(name: &str, strings: &[String]) -> Scenario {
         servers,
         actors: vec![s.actor()],
         opts: Opts { max_events: 2000, ..Opts::default() },
-        meta: serde_json::json!({ "strings": strings }),
+        meta: serde_json::json!({ "strings": strings, "default_role": default_role }),
     }
 }
 
@@ -59,7 +68,12 @@ pub fn oracle(sc: &Scenario, out: &Outcome) -> Vec<Violation> {
         })
         .collect();
     let mut fwd_iter = 0usize;
-    let mut model = Model { shard: None, shard_known: true, role: default_role_name(None, false), primary_reads: false };
+    let dr = match sc.meta["default_role"].as_str() {
+        Some("primary") => Some(pgcat::config::Role::Primary),
+        Some("replica") => Some(pgcat::config::Role::Replica),
+        _ => None,
+    };
+    let mut model = Model { shard: None, shard_known: true, role: default_role_name(dr, false), primary_reads: false };
     for (i, st) in strings.iter().enumerate() {
         let seg = match segs.get(i) {
             Some(s) if s.last().map(|m| m.code) == Some(b'Z') => s.clone(),
@@ -97,7 +111,7 @@ pub fn oracle(sc: &Scenario, out: &Outcome) -> Vec<Violation> {
             if let Class::MustHandle(cmd) = &class {
                 let refused = codes == vec![b'E', b'Z'];
                 let mut m2 = model.clone();
-                let want = apply(&mut m2, cmd, 3, None, false, false);
+                let want = apply(&mut m2, cmd, 3, dr, false, false);
                 if refused {
                     // only an out-of-range SET SHARD may be refused
                     let legit = matches!(cmd, Cmd::SetShard(val) if val.parse::<usize>().map(|n| n >= 3).unwrap_or(false));
@@ -143,6 +157,15 @@ pub fn build(tier: &str) -> SimCheck {
     let mut rev = canon.clone();
     rev.reverse();
     scenarios.push(scenario("canonical-reversed", &rev));
+    // (1b) pools with a default role of their own: a fresh session reports it before anything else
+    for r in ["primary", "replica"] {
+        let strings: Vec<String> = ["SHOW SERVER ROLE", "SELECT 1 /*c0.t0.s0*/", "SHOW SERVER ROLE", "SET SERVER ROLE TO 'any'", "SHOW SERVER ROLE", "SET SERVER ROLE TO 'default'", "SHOW SERVER ROLE"]
+            .iter()
+            .map(|s| s.to_string())
+            .collect();
+        scenarios.push(scenario_role(&format!("default-role-{}", r), &strings, Some(r)));
+        scenarios.push(scenario_role(&format!("canonical default_role={}", r), &canon, Some(r)));
+    }
     // (2) refusal keeps the old selection
     scenarios.push(scenario(
         "refusal",
@@ -188,7 +211,7 @@ pub fn build(tier: &str) -> SimCheck {
         oracle: Box::new(oracle),
         bound: 0,
         limits: Limits::default(),
-        rule: "sim: every canonical spelling (forward and reverse order, SHOW after SETs), refusal sequences, and single-token perturbations of every canonical spelling sent as simple queries to the real pooler (3 shards); handled => pooler reply of shape C Z | T D C Z | E Z and nothing forwarded; otherwise the backend receives the identical text".into(),
+        rule: "sim: every canonical spelling (forward and reverse order, SHOW after SETs; also on pools whose default_role is primary / replica, where a fresh session must report that role), refusal sequences, and single-token perturbations of every canonical spelling sent as simple queries to the real pooler (3 shards); handled => pooler reply of shape C Z | T D C Z | E Z and nothing forwarded; otherwise the backend receives the identical text".into(),
         assumptions: vec!["classification by the same hand-written reference recogniser as the enum part".into()],
     }
 }
